@@ -89,6 +89,38 @@ pub fn row_col(s: &str, offset: usize) -> (u32, u32) {
     (row as u32 + 1, col as u32 + 1)
 }
 
+/// The rows of one text, computed once (same naive splitter), for repeated row/column queries.
+pub struct RowTable<'a> {
+    pub text: &'a str,
+    pub rows: Vec<(usize, usize)>,
+    bom: bool,
+}
+
+impl<'a> RowTable<'a> {
+    pub fn new(text: &'a str) -> Self {
+        RowTable {
+            text,
+            rows: rows(text),
+            bom: text.starts_with(BOM),
+        }
+    }
+    /// zero-based row containing `offset`
+    pub fn row_of(&self, offset: usize) -> usize {
+        self.rows.partition_point(|&(s, _)| s <= offset).saturating_sub(1)
+    }
+    /// same answer as [`row_col`]
+    pub fn row_col(&self, offset: usize) -> (u32, u32) {
+        assert!(self.text.is_char_boundary(offset), "model: offset {offset} not on a char boundary");
+        let row = self.row_of(offset);
+        let mut st = self.rows[row].0;
+        if row == 0 && self.bom && offset >= BOM.len_utf8() {
+            st = BOM.len_utf8();
+        }
+        let col = self.text[st..offset].chars().count();
+        (row as u32 + 1, col as u32 + 1)
+    }
+}
+
 /// Is `offset` a position between the CR and the LF of a CRLF pair?
 pub fn inside_crlf(s: &str, offset: usize) -> bool {
     let b = s.as_bytes();
@@ -155,5 +187,11 @@ mod tests {
         assert_eq!(row_col("é\r\nx", 3), (1, 3)); // between CR and LF
         assert_eq!(row_col("é\r\nx", 4), (2, 1));
         assert_eq!(row_col("a\n", 2), (2, 1));
+        for t in ["", "a", "\u{feff}a\r\nb\rc\n", "é\n\n", "\r\n\r"] {
+            let rt = RowTable::new(t);
+            for o in boundaries(t) {
+                assert_eq!(rt.row_col(o), row_col(t, o), "{t:?} {o}");
+            }
+        }
     }
 }
